@@ -278,6 +278,7 @@ type syCop struct {
 	// must fail and must not disturb anybody else (only on a transport whose Write tests its context first)
 	Plain bool
 	Dead  int
+	Ack   bool // send: the transport Write of this message delivers it and then reports a timeout (lock-step only)
 }
 
 func (c syCop) String() string {
@@ -529,7 +530,14 @@ type syAckRW struct {
 	r     *syRig
 }
 
-var errAckLost = errors.New("write: acknowledgement lost")
+// a timeout-type net.Error (what a transport reports when the acknowledgement of a delivered write is lost)
+type syAckErr struct{}
+
+func (syAckErr) Error() string   { return "write: i/o timeout (acknowledgement lost)" }
+func (syAckErr) Timeout() bool   { return true }
+func (syAckErr) Temporary() bool { return true }
+
+var errAckLost error = syAckErr{}
 
 func (t *syAckRW) Read(ctx context.Context) (*Rpc, error) { return t.inner.Read(ctx) }
 func (t *syAckRW) Write(ctx context.Context, e *Rpc) error {
@@ -916,6 +924,20 @@ func (r *syRig) send(cs grpc.ClientStream, k int64, b []byte) error {
 	return err
 }
 
+// sendAck: the Write of this message hands it to the wire and then reports a timeout; a failure is recorded as class 77
+func (r *syRig) sendAck(cs grpc.ClientStream, k int64, b []byte) error {
+	r.hist.add(fmt.Sprintf("CSendS %d %s", k, syT(b)))
+	r.ackLoss.Store(true)
+	err := cs.SendMsg(bv(b))
+	r.ackLoss.Store(false)
+	cls := 0
+	if err != nil {
+		cls = 77
+	}
+	r.hist.add(fmt.Sprintf("CSendR %d %d", k, cls))
+	return err
+}
+
 func (r *syRig) recv(cs grpc.ClientStream, k int64) error {
 	r.hist.add(fmt.Sprintf("CRecvS %d", k))
 	// one message object per stream, reused by every RecvMsg and pre-populated: RecvMsg must overwrite it completely,
@@ -1009,7 +1031,14 @@ func (r *syRig) exec(th *syThread) {
 		if op.Park {
 			r.arm("cs.send.checked", th)
 		}
-		r.send(r.slot(op.Slot), int64(op.Slot), op.Pay)
+		r.mu.Lock()
+		locked := r.lock
+		r.mu.Unlock()
+		if op.Ack && locked {
+			r.sendAck(r.slot(op.Slot), int64(op.Slot), op.Pay)
+		} else {
+			r.send(r.slot(op.Slot), int64(op.Slot), op.Pay)
+		}
 		r.disarm("cs.send.checked", th)
 	case "recv", "recv*":
 		if op.Op == "recv" {
